@@ -271,6 +271,23 @@ Theorem C20_src_vcd_text_perm_invariant : forall render_var tracked tracked' (it
 Proof. exact src_vcd_text_perm_invariant. Qed.
 Print Assumptions C20_src_vcd_text_perm_invariant.
 
+(* memory / ROM blocks of the module are emitted sorted by their unique id: independent of the
+   schedule even when distinct memories have EQUAL names (build_new_roms clones) ... *)
+Theorem C20_src_memories_by_id_perm_invariant : forall (A : Type) (mid : A -> N) (l l' : list A),
+  src_memories_sorted_by_id = true ->
+  NoDup (map mid l) -> Permutation l l' ->
+  sort_by mid N.ltb l = sort_by mid N.ltb l'.
+Proof. exact src_memories_by_id_perm_invariant. Qed.
+Print Assumptions C20_src_memories_by_id_perm_invariant.
+
+(* ... whereas sorting them by (any key of) their name would follow set order *)
+Theorem C20_same_name_sort_order_refuted : exists l l' : list (N * name),
+  Permutation l l' /\ NoDup l /\ NoDup (map fst l) /\
+  sort_by (fun m => natural_key_tb (snd m)) key2_ltb l <>
+  sort_by (fun m => natural_key_tb (snd m)) key2_ltb l'.
+Proof. exact same_name_sort_order_refuted. Qed.
+Print Assumptions C20_same_name_sort_order_refuted.
+
 (* the name a memory-write net is sorted by: injective in (enable, addr, data) if the source
    builds it from all three, else (enable only) two ports sharing an enable collide.  The
    statement is the branch selected by what _net_sorted says in /repo now. *)
